@@ -553,6 +553,8 @@ cpc_sketch_alloc<A> cpc_sketch_alloc<A>::deserialize(std::istream& is, uint64_t 
       kxp = read<double>(is);
       hip_est_accum = read<double>(is);
     }
+    if (!is.good())
+      throw std::runtime_error("error reading from std::istream");
     if (has_window) {
       compressed.window_data.resize(compressed.window_data_words);
       read(is, compressed.window_data.data(), compressed.window_data_words * sizeof(uint32_t));
@@ -563,6 +565,8 @@ cpc_sketch_alloc<A> cpc_sketch_alloc<A>::deserialize(std::istream& is, uint64_t 
     }
     if (!has_window) compressed.table_num_entries = num_coupons;
   }
+  if (!is.good())
+    throw std::runtime_error("error reading from std::istream");
 
   uint8_t expected_preamble_ints = get_preamble_ints(num_coupons, has_hip, has_table, has_window);
   if (preamble_ints != expected_preamble_ints) {
@@ -584,8 +588,6 @@ cpc_sketch_alloc<A> cpc_sketch_alloc<A>::deserialize(std::istream& is, uint64_t 
   check_lg_k(lg_k);
   uncompressed_state<A> uncompressed(allocator);
   get_compressor<A>().uncompress(compressed, uncompressed, lg_k, num_coupons);
-  if (!is.good())
-    throw std::runtime_error("error reading from std::istream"); 
   return cpc_sketch_alloc(lg_k, num_coupons, first_interesting_column, std::move(uncompressed.table),
       std::move(uncompressed.window), has_hip, kxp, hip_est_accum, seed);
 }
